@@ -42,6 +42,11 @@ INJ = [
     ('unit-less source, host with unit', 'a float = {x1}\na = {x2}\nb float = {?a} kg', [('b', 'v.x2', 'kg')]),
     ('chain of injections', 'a float = {x1} m\na = {x2} m\nb float = {?a}\nc float = {?b} cm', [('c', 'v.x2', 'cm')]),
     ('injection inside a selected case', 'a float = {x1} m\na = {x2} m\n@case true\n  b float = {?a}\n@end', [('b', 'v.x2', 'm')]),
+    ('source defined by an expression that is exactly zero: the host still adopts its unit', 'x float = {x1} cm\na float = ("{?x} - {?x}") cm\nb float = {?a}', [('a', '0', 'cm'), ('b', '0', 'cm')]),
+    ('zero-valued expression source, host modified later in another prefix', 'x float = {x1} cm\na float = ("{?x} - {?x}") cm\nc float = {?a}\nc = {x2} m', [('c', 'v.x2 * 100', 'cm')]),
+    ('source defined by an expression, host without unit', 'x float = {x1} cm\na float = ("{?x} + {x2} mm") cm\nb float = {?a}', [('b', 'v.x1 + v.x2 / 10', 'cm')]),
+    ('zero literal source', 'a float = 0 cm\nb float = {?a}', [('b', '0', 'cm')]),
+    ('sliced injection, host modified afterwards', 's float[3] = [1.5,2.5,3.5] cm\nu float = {?s}[2] cm\nu = {x2} m', [('u', 'v.x2 * 100', 'cm')]),
     ('source modified inside a case', 'a float = {x1} m\n@case true\n  a = {x2} m\n@end\nb float = {?a}', [('b', 'v.x2', 'm')]),
 ]
 INJ_SRC = '''
@@ -72,6 +77,10 @@ IMPORTS = [
      {'shelf.toolbox.lid': 'v.k1', 'shelf.sandbox.box.depth': ('v.x1', 'm'), 'shelf.width': 'v.k2'},
      ['box.toolbox.lid', 'box.sandbox.box.depth', 'box.width', 'shelf.toolbox.lid', 'shelf.sandbox.box.depth', 'shelf.width']),
     ('nested prefix repeated in the path', 'a\n  a\n    a int = {k1}\n    b int = {k2}\nq {?a.a.*}\nr {?a.a.a}', {'q.a': 'v.k1', 'q.b': 'v.k2', 'r.a': 'v.k1'}, ['a.a.a', 'a.a.b', 'q.a', 'q.b', 'r.a']),
+    ('siblings whose names start with the text of the imported path', 'box\n  x float = {x1} m\nbox2\n  y int = {k1}\nboxes\n  s int = {k2}\nbox_x float = {x2} cm\ng {?box.*}',
+     {'g.x': ('v.x1', 'm'), 'box_x': ('v.x2', 'cm')}, ['box.x', 'box2.y', 'boxes.s', 'box_x', 'g.x']),
+    ('single descendant selected although a sibling name extends the path', 'size\n  w float = {x1} m\nsizes int = {k1}\nq {?size.*}', {'q.w': ('v.x1', 'm')}, ['size.w', 'sizes', 'q.w']),
+    ('import of a host that was defined by a sliced injection', 's float[3] = [1.5,2.5,3.5] m\nt float = {?s}[1] m\nw int = {k1}\ng {?t}', {'g.t': ('2.5', 'm'), 't': ('2.5', 'm')}, ['s', 't', 'w', 'g.t']),
     ('import of a subtree with deeper levels', 'r\n  a\n    b float = {x1} s\n    b = {x2} ms\n    c\n      d int = {k1}\nq {?r.a.*}', {'q.b': ('v.x2 / 1000', 's'), 'q.c.d': 'v.k1'}, ['r.a.b', 'r.a.c.d', 'q.b', 'q.c.d']),
 ]
 IMP_SRC = '''
@@ -149,7 +158,18 @@ SLICES = [('string slice', 'person str = "Will Smith"\nsurname str = {?person}[5
           ('single array element', 'sizes float[3] = [34,23.34,1e34] cm\nmy float = {?sizes}[1]', 'my', 23.34), ('array range', 'a int[4] = [1,2,3,4]\nb int[2] = {?a}[1:3]', 'b', [2, 3]),
           ('matrix column', 'm float[2,2] = [[34,23.34],[1,1e34]] cm\nc float[2] = {?m}[:,1]', 'c', [23.34, 1e34]), ('matrix row', 'm int[2,2] = [[1,2],[3,4]]\nr int[2] = {?m}[1,:]', 'r', [3, 4]),
           ('matrix element', 'm int[2,2] = [[1,2],[3,4]]\ne int = {?m}[1,0]', 'e', 3), ('whole array', 'a int[3] = [1,2,3]\nb int[3] = {?a}', 'b', [1, 2, 3]),
-          ('slice after modification', 'a int[3] = [1,2,3]\na = [7,8,9]\nb int = {?a}[2]', 'b', 9), ('string whole', 'p str = "abc"\nq str = {?p}', 'q', 'abc')]
+          ('slice after modification', 'a int[3] = [1,2,3]\na = [7,8,9]\nb int = {?a}[2]', 'b', 9),
+          ('sliced host modified afterwards (array)', 's float[4] = [1,2,3,4]\nt float[:] = {?s}[1:]\nt = [10,20,30]', 't', [10.0, 20.0, 30.0]),
+          ('sliced host modified afterwards (string)', 'n str = "John Smith"\nm str = {?n}[5:]\nm = "Jane Doe"', 'm', 'Jane Doe'),
+          ('sliced host imported afterwards', 's float[4] = [1,2,3,4]\nt float[:] = {?s}[1:]\ng {?t}', 'g.t', [2.0, 3.0, 4.0]),
+          ('reference to a host that was defined by a matrix slice', 'm float[2,2] = [[1,2],[3,4]]\nc float[2] = {?m}[:,1]\nd float[2] = {?c}', 'd', [2.0, 4.0]),
+          ('reference to a host that was defined by a string slice', 'p str = "Will Smith"\ns str = {?p}[:4]\nq str = {?s}', 'q', 'Will'),
+          ('reference to a host that was defined by a matrix element', 'm float[2,2] = [[1,2],[3,4]]\ne float = {?m}[1,0]\nf float = {?e}', 'f', 3.0),
+          ('host defined by a matrix slice, modified afterwards', 'm float[2,2] = [[1,2],[3,4]]\nc float[2] = {?m}[:,1]\nc = [7,8]', 'c', [7.0, 8.0]),
+          ('modification by a sliced injection', 's float[3] = [1,2,3]\na float = 1\na = {?s}[1]', 'a', 2.0),
+          ('string array slice then element', 'n str[3] = ["a","b","c"]\nm str[2] = {?n}[1:]\nk str = {?m}[0]', 'k', 'b'),
+          ('bool array element handed on', 'b bool[3] = [true,false,true]\nc bool = {?b}[1]\nd bool = {?c}', 'd', False),
+          ('injection of the value of a slice that is injected again', 's float[4] = [1,2,3,4]\nt float[:] = {?s}[1:]\nu float = {?t}[0]', 'u', 2.0), ('string whole', 'p str = "abc"\nq str = {?p}', 'q', 'abc')]
 SLICE_SRC = '''
 import numpy as np
 def run(v, O):
